@@ -26,8 +26,49 @@ class ShapeEval:
             for sub in reversed(getattr(self, "_tysubst", [])):
                 if sub:
                     st = re.sub(r"\b(%s)\b" % "|".join(re.escape(k) for k in sub), lambda m: sub[m.group(1)], st)
-            return st
+            return self.normalise_projections(st)
         return str(g)
+
+    def normalise_projections(self, st):
+        """`<X as Trait>::Name` with X concrete is the associated type the one impl of Trait for X states"""
+        if " as " not in st:
+            return st
+        for _ in range(4):
+            hit = False
+            for i in self.prog.impls:
+                if not i.get("trait") or i.get("generics"):
+                    continue
+                for it in i.get("items", ()):
+                    if it.get("kind") == "Type" and "ty" in it:
+                        pat = "<%s as %s>::%s" % (self.prog.ty(i["self_ty"])["s"], i["trait"], it["name"])
+                        if pat in st:
+                            st = st.replace(pat, self.prog.ty(it["ty"])["s"])
+                            hit = True
+            if not hit or " as " not in st:
+                break
+        return st
+
+    def assoc_const(self, t):
+        """the value of `<X as Trait>::NAME` read inside an inlined provided method: the constant the impl of Trait for X states"""
+        if t[0] != "const":
+            return None
+        c = dict(t[1]) if not isinstance(t[1], dict) else t[1]
+        if "unevaluated" not in c or not c.get("uargs"):
+            return None
+        tr, _, nm = c["unevaluated"].rpartition("::")
+        ua = [g for g in c["uargs"] if isinstance(g, int)]
+        if not ua:
+            return None
+        selfs = self.tystr(ua[0])
+        for i in self.prog.impls:
+            if i.get("trait") == tr and not i.get("generics") and self.prog.ty(i["self_ty"])["s"] == selfs:
+                for it in i.get("items", ()):
+                    if it.get("name") == nm and it.get("kind") == "Const":
+                        if "str" in it:
+                            return ("str", it["str"])
+                        if "int" in it:
+                            return ("int", int(it["int"]), c.get("ty"))
+        return None
 
     def type_gargs(self, info):
         return [g for g in info["gargs"] if isinstance(g, int)]
@@ -63,6 +104,7 @@ class ShapeEval:
 
     def const_str(self, t):
         t = unref(t)
+        t = self.assoc_const(t) or t
         if t[0] == "str":
             return t[1]
         raise Unrecognised("expected a string literal, got %s" % path_str(t)[:100])
@@ -96,6 +138,7 @@ class ShapeEval:
             return path_str(t)[:200]
 
     def const_int(self, t):
+        t = self.assoc_const(unref(t)) or t
         v = fold_int(unref(t))
         if v is not None:
             return v & 0xFF if t[0] == "cast" and self.prog.ty(t[3])["s"] == "u8" else v
